@@ -72,7 +72,7 @@ func TestC15(t *testing.T) {
 		paths = []path{{"sse2", func() { argon2.VerifSetSSE4(false) }}}
 	}
 
-	total := m.N(400, 20000)
+	total := m.N(400, 8000)
 	bigLanes := []uint8{6, 7, 31, 32, 64, 128, 255}
 	// expected class counts (pure function of total): gate minimums
 	exp := map[string]int{}
